@@ -693,7 +693,7 @@ func RndBundle(rng *rand.Rand, maxFeatures int) *Bundle {
 			}
 			t := Pick(rng, BundleTargets)
 			if single {
-				for t == "remoteDef" || t == "remoteChain" || t == "remoteRecursive" || t == "remoteCrossFileCycle" || t == "remoteSiblingCircular" || t == "remoteSameNameDocs" {
+				for t == "remoteDef" || t == "remoteChain" || t == "remoteRecursive" || t == "remoteCrossFileCycle" || t == "remoteSiblingCircular" || t == "remoteSameNameDocs" || t == "remoteSameNameDocsRecursive" {
 					t = Pick(rng, BundleTargets)
 				}
 			}
